@@ -165,6 +165,37 @@ P["C17"] = dict(
          "the DID's parts, and sweeps every single-character change of every created DID.",
     ref="DESIGN.md 3 C17")
 
+P["C05"] = dict(
+    level="model_checking", engine="jcs",
+    technique="TLA+ definition of RFC 8785 canonical form (Jcs.tla: UTF-16 sort key, escaping, ECMA-262 number layout) "
+              "checked by TLC; every enumerated value x 5 spellings replayed into canonicalizer.MarshalCanonical; TLC trace "
+              "validation of random values and sampled doubles",
+    text="Canon is specified in TLA+ and evaluated by TLC for an exhaustive universe of small values built to hit every "
+         "class (escapes, UTF-16 vs code-point order, layout boundaries); each value is spelled in five surface styles "
+         "and the library must return exactly Canon(v), a fixed point denoting the same value. Beyond the universe TLC "
+         "is the oracle for random values and sampled doubles recorded from the library (structure: model checking; "
+         "numbers and long strings: sampled).",
+    ref="DESIGN.md 3 C05")
+
+P["C15"] = dict(
+    level="exploration", engine="jws",
+    technique="TLA+ ideal-signature model (Jws.tla) checked by TLC enumerates key type x signature shape x tamper class; the "
+              "harness expands every class to all concrete instances against signutil / jwsutil.VerifyJWS",
+    text="Cryptographic correctness cannot be model-checked; the specification contributes the complete class space and "
+         "the verdicts, the harness the concrete instances (every bit, every key type, leading-zero signatures found by "
+         "sampling). Exhaustive over classes and bit positions, sampled over keys and payloads.",
+    ref="DESIGN.md 3 C15",
+    note="Trusted base: TLC 1.8.0; Go crypto (ECDSA, Ed25519, btcec); instances are sampled by seed.")
+P["C16"] = dict(
+    level="exploration", engine="jws",
+    technique="TLA+ class model (Jws.tla) checked by TLC enumerates key type x coordinate shape x modification; the harness "
+              "samples keys with leading-zero coordinates and checks pubkey.GetPublicKeyJWK / jwsutil.JWK round trips",
+    text="The class space (incl. stripped / added leading zero bytes, off-curve points) and verdicts come from the "
+         "specification; concrete keys of each shape are found by seeded sampling and pushed through the real encoders, "
+         "decoders, commitment functions and the verifier. Exhaustive over classes, sampled over keys.",
+    ref="DESIGN.md 3 C16",
+    note="Trusted base: TLC 1.8.0; Go crypto; leading-zero keys are found by rejection sampling (1/256 per coordinate).")
+
 NOT_YET = {}
 
 
